@@ -299,9 +299,10 @@ class SoftTTLCache(Entity):
             self._coalesced_requests += 1
             # Wait for backing store latency (simulating waiting for the refresh)
             yield self._backing_store.read_latency
-            # Check if the refresh completed
-            if key in self._cache:
-                return self._cache[key].value
+            # Check if the refresh completed (never serve past the hard TTL)
+            entry = self._cache.get(key)
+            if entry is not None and entry.is_valid(self.now, self._hard_ttl):
+                return entry.value
             return None
 
         # Fetch from backing store (blocking)
